@@ -235,3 +235,47 @@ V("C14-d-vector-cond3", "C14", "C14.2", (OPT, "cond3 = D.ar_numpy.logical_and(D.
 V("C14-e-eps-product", "C14", "C14.1", (OPT, "    if fa * fb > 0:\n        return", "    if fa * fb >= D.epsilon(lower_bound.dtype):\n        return"))
 V("C14-f-interval-3ab", "C14", "C14.2", (OPT, "cond1 = not ((3 * a + b) / 4 < s < b or b < s < (3 * a + b) / 4)", "cond1 = not ((3 * a + b) / 4 < s < b or b < s < (a + 3 * b) / 4)"))
 V("C14-s-cond-order", "C14", "silent", (OPT, "bisect_now = cond1 or (mflag and cond2) or (not mflag and cond3) or (mflag and cond4) or (not mflag and cond5)", "bisect_now = (mflag and (cond2 or cond4)) or (not mflag and (cond3 or cond5)) or cond1"))
+
+# ---- C13 -----------------------------------------------------------------------------------------
+V("C13-a1-no-events-reset", "C13", "C13.1", (DS, "        if self.__events:\n            self.__events = []\n        self.initialise_integrator(preserve_states=False)", "        self.initialise_integrator(preserve_states=False)"))
+V("C13-a2-no-sol-reset", "C13", "C13.1", (DS, "        self.__trim_soln_space()\n        self.__sol = DenseOutput(None, None)\n        self.dt = self.__dt0", "        self.__trim_soln_space()\n        self.dt = self.__dt0"))
+V("C13-a3-no-dt-reset", "C13", "C13.1", (DS, "        self.__sol = DenseOutput(None, None)\n        self.dt = self.__dt0\n", "        self.__sol = DenseOutput(None, None)\n"))
+V("C13-b-preserve", "C13", "C13.2", (DS, "            self.__events = []\n        self.initialise_integrator(preserve_states=False)", "            self.__events = []\n        self.initialise_integrator(preserve_states=True)"))
+V("C13-c-no-clone", "C13", "C13.3", (DS, "self.__y = D.ar_numpy.clone(y0)[None]", "self.__y = y0[None]"))
+V("C13-d-no-nfev", "C13", "C13.1", (DS, "        self.equ_rhs.nfev = 0\n        self.__int_status = 0", "        self.__int_status = 0"))
+V("C13-e-no-integrator", "C13", "C13.1", (DS, "            self.__events = []\n        self.initialise_integrator(preserve_states=False)", "            self.__events = []"))
+V("C13-f-early-return-late", "C13", "C13.4", (DS, "        if D.ar_numpy.abs(tf - self.__t[self.counter]) < D.epsilon(self.__y[self.counter].dtype):\n            return\n        steps = 0", "        self.__int_status = 0\n        if D.ar_numpy.abs(tf - self.__t[self.counter]) < D.epsilon(self.__y[self.counter].dtype):\n            return\n        steps = 0"))
+V("C13-g-no-early-return", "C13", "C13.4", (DS, "        if D.ar_numpy.abs(tf - self.__t[self.counter]) < D.epsilon(self.__y[self.counter].dtype):\n            return\n        steps = 0", "        steps = 0"))
+V("C13-h-status-value", "C13", "C13.2", (DS, "        self.equ_rhs.nfev = 0\n        self.__int_status = 0", "        self.equ_rhs.nfev = 0\n        self.__int_status = 1"))
+V("C13-i-trim-before-zero", "C13", "C13.2", (DS, "        self.counter = 0\n        self.__trim_soln_space()\n        self.__sol = DenseOutput(None, None)", "        self.__trim_soln_space()\n        self.counter = 0\n        self.__sol = DenseOutput(None, None)"))
+V("C13-j-new-state-not-reset", "C13", "C13.1", (DS, "                steps += 1\n", "                steps += 1\n                self.total_steps_taken = steps\n"))
+V("C13-k-consts-write", "C13", "C13.3", (DS, "        end_int = False\n        self.__allocate_soln_space(total_steps)", "        end_int = False\n        self.constants['__last_target'] = tf\n        self.__allocate_soln_space(total_steps)"))
+V("C13-l-dt0-overwritten", "C13", "C13.2", (DS, "                if not is_final_step:\n                    self.dt = new_dt", "                if not is_final_step:\n                    self.dt = new_dt\n                    self.__dt0 = new_dt"))
+V("C13-s-permute-reset", "C13", "silent", (DS, "        self.equ_rhs.nfev = 0\n        self.__int_status = 0\n", "        self.__int_status = 0\n        self.equ_rhs.nfev = 0\n"))
+
+# ---- C16 -----------------------------------------------------------------------------------------
+V("C16-a-never-rebuild", "C16", "C16.2", (DS, "            if t != self.__jac_time:\n                self.__jac_time = t\n                self.__jac = deutil.JacobianWrapper(lambda y, **kwargs: self(t, y, **kwargs),\n                                                    base_order=self.__jac_wrapped_rhs_order, flat=False)\n", ""))
+V("C16-b-prefer-fd", "C16", "C16.1", (DS, "                if hasattr(self.rhs, 'jac'):\n                    self.__jac = self.rhs.jac\n                    self.__jac_time = None\n                    self.__jac_is_wrapped_rhs = False\n                elif inferred_backend == 'numpy':", "                if inferred_backend == 'numpy':"))
+V("C16-c-unhook-no-rearm", "C16", "C16.1", (DS, "        self.__jac = None\n        self.__jac_initialised = False\n", "        self.__jac = None\n"))
+V("C16-d-raw-rhs", "C16", "C16.3", (DS, "self.__jac = deutil.JacobianWrapper(lambda y, **kwargs: self(0.0, y, **kwargs),\n                                                base_order=self.__jac_wrapped_rhs_order, flat=False)\n            self.__jac_time = 0.0\n\n    def __str__", "self.__jac = deutil.JacobianWrapper(lambda y, **kwargs: self.rhs(0.0, y, **kwargs),\n                                                base_order=self.__jac_wrapped_rhs_order, flat=False)\n            self.__jac_time = 0.0\n\n    def __str__"))
+V("C16-e-stale-key", "C16", "C16.2", (DS, "                self.__jac_time = t\n                self.__jac = deutil.JacobianWrapper(lambda y, **kwargs: self(t, y, **kwargs),", "                self.__jac_time = t\n                self.__jac = deutil.JacobianWrapper(lambda y, **kwargs: self(self.__jac_time or 0.0, y, **kwargs),"))
+V("C16-f-hook-keeps-wrapped", "C16", "C16.1", (DS, "        self.__jac = jac_fn\n        self.__jac_time = None\n        self.__jac_is_wrapped_rhs = False", "        self.__jac = jac_fn\n        self.__jac_time = None"))
+V("C16-g-column", "C16", "C16.4", (UTL, "jacobian_y[:, idx] = jacobian_y[:, idx] + w * D.ar_numpy.reshape(", "jacobian_y[:, idx - 1] = jacobian_y[:, idx - 1] + w * D.ar_numpy.reshape("))
+V("C16-h-reshape-order", "C16", "C16.4", (UTL, "return jacobian_y.reshape((*D.ar_numpy.shape(dy_val), *D.ar_numpy.shape(y)))", "return jacobian_y.reshape((*D.ar_numpy.shape(y), *D.ar_numpy.shape(dy_val)))"))
+V("C16-i-flat", "C16", "C16.3", (DS, "self.__jac = deutil.JacobianWrapper(lambda y, **kwargs: self(0.0, y, **kwargs),\n                                                base_order=self.__jac_wrapped_rhs_order, flat=False)\n            self.__jac_time = 0.0\n\n    def __str__", "self.__jac = deutil.JacobianWrapper(lambda y, **kwargs: self(0.0, y, **kwargs),\n                                                base_order=self.__jac_wrapped_rhs_order, flat=True)\n            self.__jac_time = 0.0\n\n    def __str__"))
+V("C16-j-init-time-key", "C16", "C16.2", (DS, "                    self.__jac_time = 0.0\n                    self.__jac_is_wrapped_rhs = True", "                    self.__jac_time = t\n                    self.__jac_is_wrapped_rhs = True"))
+V("C16-k-setattr", "C16", "C16.1", (DS, "        elif name == \"jac\":\n            self.hook_jacobian_call(val)\n", "        elif name == \"jacobian\":\n            self.hook_jacobian_call(val)\n"))
+
+# ---- C20 -----------------------------------------------------------------------------------------
+V("C20-a-count-before", "C20", "C20.2", (DS, "        called_val = self.rhs(t, y, *args, **kwargs)\n        self.nfev += 1\n        return called_val", "        self.nfev += 1\n        called_val = self.rhs(t, y, *args, **kwargs)\n        return called_val"))
+V("C20-b-reversed", "C20", "C20.3", (DS, "                for i in callback:\n                    i(self)", "                for i in reversed(callback):\n                    i(self)"))
+V("C20-c-cb-before-commit", "C20", "C20.3", (DS, "                self.counter += 1\n\n                if events is not None or self.__dense_output:", "                for i in callback:\n                    i(self)\n                self.counter += 1\n\n                if events is not None or self.__dense_output:"))
+V("C20-d-njev-skip", "C20", ["C20.2b"], (DS, "            called_val = self.__jac(t, y, *args, **kwargs)\n        self.njev += 1", "            return self.__jac(t, y, *args, **kwargs)\n        self.njev += 1"))
+V("C20-e-dt-after-cb", "C20", "C20.4", (DS, "                for i in callback:\n                    i(self)\n", "                for i in callback:\n                    i(self)\n                if not is_final_step:\n                    self.dt = new_dt\n"))
+V("C20-f-rhs-in-jac", "C20", "C20.1", (DS, "self.__jac = deutil.JacobianWrapper(lambda y, **kwargs: self(t, y, **kwargs),", "self.__jac = deutil.JacobianWrapper(lambda y, **kwargs: self.rhs(t, y, **kwargs),"))
+V("C20-g-integrator-raw", "C20", "C20.1", (ITY, "            self.final_rhs = rhs(initial_time + self.dTime, initial_state + self.dState, **constants)\n        self.final_time", "            self.final_rhs = rhs.rhs(initial_time + self.dTime, initial_state + self.dState, **constants)\n        self.final_time"))
+V("C20-h-nfev-reset-elsewhere", "C20", "C20.2", (DS, "        if t is not None:\n            tf = t\n        else:\n            tf = self.tf\n", "        if t is not None:\n            tf = t\n        else:\n            tf = self.tf\n            self.equ_rhs.nfev = 0\n"))
+V("C20-i-cb-in-events", "C20", "C20.3", (DS, "                for i in callback:\n                    i(self)\n", "                if events is None:\n                    for i in callback:\n                        i(self)\n"))
+V("C20-j-njev-double", "C20", ["C20.2b", "C20.2"], (DS, "        if self.__jac_is_wrapped_rhs:\n            if t != self.__jac_time:", "        if self.__jac_is_wrapped_rhs:\n            self.njev += 1\n            if t != self.__jac_time:"))
+V("C20-k-fix-dir-magnitude", "C20", "C20.4", (DS, "            self.__dt = -self.__dt\n        else:", "            self.__dt = -0.5 * self.__dt\n        else:"))
+V("C20-s-cb-name", "C20", "silent", (DS, "                for i in callback:\n                    i(self)", "                for cb in callback:\n                    cb(self)"))
